@@ -95,6 +95,9 @@ pub struct RegOp {
     /// algorithm the authenticator does not support, so that either treatment of such an entry is fine)
     #[serde(default)]
     pub unknown_type_mask: u8,
+    /// attestation conveyance preference: 0 none (default), 1 indirect, 2 direct, 3 enterprise
+    #[serde(default)]
+    pub attestation: u8,
 }
 
 #[derive(Clone, Debug, Serialize, Deserialize, PartialEq)]
@@ -436,6 +439,10 @@ impl<S: StoreAccess> Runner<S> {
         let site = &SITES[op.site % SITES.len()];
         let before = self.store_snapshot();
         let mut req = cer::creation_options(site.rp, &op.challenge, &op.user_id, &op.user_name, &op.algs, None, selection_of(op), None);
+        {
+            use passkey_types::webauthn::AttestationConveyancePreference as A;
+            req.public_key.attestation = [A::None, A::Indirect, A::Direct, A::Enterprise][op.attestation as usize % 4];
+        }
         for (i, p) in req.public_key.pub_key_cred_params.iter_mut().enumerate() {
             if i < 8 && op.unknown_type_mask & (1 << i) != 0 && p.alg != coset::iana::Algorithm::ES256 {
                 p.ty = passkey_types::webauthn::PublicKeyCredentialType::Unknown;
@@ -802,7 +809,7 @@ pub fn alg_list() -> impl Strategy<Value = Vec<i64>> {
 
 pub fn reg_op(sites: Vec<usize>) -> impl Strategy<Value = RegOp> {
     let n = sites.len();
-    (any::<u16>(), bytes(128), bytes(64), "\\PC{0,12}", alg_list(), cd_mode(), any::<u8>(), 0u8..5, prop_oneof![2 => Just(0u8), 1 => any::<u8>()]).prop_map(move |(s, challenge, user_id, user_name, algs, cd, uv, rk, unknown_type_mask)| RegOp { site: sites[idx(s, n)], challenge, user_id, user_name, algs, cd, uv, rk, unknown_type_mask })
+    (any::<u16>(), bytes(128), bytes(64), "\\PC{0,12}", alg_list(), cd_mode(), any::<u8>(), 0u8..5, prop_oneof![2 => Just(0u8), 1 => any::<u8>()]).prop_map(move |(s, challenge, user_id, user_name, algs, cd, uv, rk, unknown_type_mask)| RegOp { site: sites[idx(s, n)], attestation: if uv % 2 == 0 { 0 } else { (uv / 2) % 4 }, challenge, user_id, user_name, algs, cd, uv, rk, unknown_type_mask })
 }
 
 pub fn allow_sel() -> impl Strategy<Value = AllowSel> {
